@@ -2,18 +2,30 @@
 
 use crate::diagnostics::{Diagnostic, Diagnostics, Error};
 use crate::grammar::*;
+use std::collections::HashMap;
 
 pub fn validate_dictionary(dictionary: &Dictionary, diagnostics: &mut Diagnostics) {
     has_allowed_key_type(dictionary, diagnostics);
 }
 
 fn has_allowed_key_type(dictionary: &Dictionary, diagnostics: &mut Diagnostics) {
-    if let Some(e) = check_dictionary_key_type(&dictionary.key_type) {
+    if let Some(e) = check_dictionary_key_type(&dictionary.key_type, &mut HashMap::new(), false) {
         e.push_into(diagnostics)
     }
 }
 
-fn check_dictionary_key_type(type_ref: &TypeRef) -> Option<Diagnostic> {
+/// Checks whether a type can be used as a dictionary key, and returns an error describing why not otherwise.
+///
+/// `checked_structs` remembers, for the structs that have already been checked, whether they're valid key types.
+/// Structs can share the types of their fields, so without it a struct is checked once per path that leads to it
+/// (which takes time that doubles with every level of `compact struct K2 { a: K1, b: K1 }`).
+/// `is_nested` is true when we're checking the field of a struct key (instead of the key type itself);
+/// for these, only the error's message is used, so we don't have to collect its notes again.
+fn check_dictionary_key_type(
+    type_ref: &TypeRef,
+    checked_structs: &mut HashMap<*const Struct, bool>,
+    is_nested: bool,
+) -> Option<Diagnostic> {
     // Optional types cannot be used as dictionary keys.
     if type_ref.is_optional {
         return Some(Diagnostic::new(Error::KeyMustBeNonOptional).set_span(type_ref.span()));
@@ -27,13 +39,26 @@ fn check_dictionary_key_type(type_ref: &TypeRef) -> Option<Diagnostic> {
                 return Some(Diagnostic::new(Error::StructKeyMustBeCompact).set_span(type_ref.span()));
             }
 
+            // If we've already checked this struct, there's no need to check its fields again.
+            match checked_structs.get(&(struct_def as *const Struct)) {
+                Some(true) => return None,
+                Some(false) if is_nested => {
+                    let error = Error::StructKeyContainsDisallowedType {
+                        struct_identifier: struct_def.identifier().to_owned(),
+                    };
+                    return Some(Diagnostic::new(error).set_span(type_ref.span()));
+                }
+                _ => {}
+            }
+
             // Check that all the fields of the struct are also valid key types.
             // We collect the invalid fields so we can report them in the error message.
             let errors = struct_def
                 .fields()
                 .into_iter()
-                .filter_map(|field| check_dictionary_key_type(field.data_type()))
+                .filter_map(|field| check_dictionary_key_type(field.data_type(), checked_structs, true))
                 .collect::<Vec<_>>();
+            checked_structs.insert(struct_def, errors.is_empty());
             if !errors.is_empty() {
                 let mut error = Diagnostic::new(Error::StructKeyContainsDisallowedType {
                     struct_identifier: struct_def.identifier().to_owned(),
